@@ -114,8 +114,17 @@ def conformation(rng, refm, k):
         R, t = gen.random_rotation(rng), rng.normal(size=3) * 4
         arg.atoms_positions = conf @ R.T + t
     nres = len(arg.resids)
-    style = int(rng.integers(0, 4))
-    if style == 0:
+    style = int(rng.integers(0, 5))
+    if style == 4 and nres >= 2:
+        # neighbouring residues that carry the same number (the argument's residues stay separate objects)
+        first = int(rng.integers(1, 5000))
+        nums, cur = [], first
+        for j in range(nres):
+            if j and rng.random() < 0.5:
+                cur += 1
+            nums.append(cur)
+        arg.resids = nums
+    elif style == 0 or style == 4:
         pass                                   # numbered exactly like the construction reference
     elif style == 1 or nres == 1:
         first = int(rng.integers(1, 5000))
